@@ -2,7 +2,7 @@
 Tie: real `vsb backup` runs under a fake clock (same day, +1 h, next day, gaps) with limits 1..4 x 1..4 changed
 between runs and storages seeded with debris; after every run the storage listing is compared with the Gallina
 model (Verify.publish followed by gc) and the property's statement is evaluated on the real listing."""
-from vlib import build, runs, slevel
+from vlib import build, runs, slevel, trace
 
 
 def run(ctx):
@@ -11,7 +11,7 @@ def run(ctx):
     build.ensure_vsb()
     build.ensure_vsbh()
     nhist, nruns = (60, 14) if thorough else (7, 9)
-    ctx.rule = ("%d histories of %d runs each: limits drawn from 1..4 x 1..4 and changed between runs with probability 0.2; clock steps "
+    ctx.rule = ("%d histories of %d runs each: limits drawn from 1..4 x 1..4 and changed between runs with probability 0.2; a fifth of the runs fail hard (ENOSPC / EIO / EACCES injected into write / fsync / rename / mkdir); clock steps "
                 "{+1 s, +2 s, +1 h, +11 h, next day, +9 days}; before a run, with probability 0.3, debris is seeded (hidden / foreign files at "
                 "root or group level, abandoned temporary, backup directory missing a file, empty older group). Compared after every run: "
                 "group and backup names vs Verify.publish + gc; evaluated: group sizes, number of groups, which groups were removed, that "
@@ -26,12 +26,38 @@ def run(ctx):
                     H.change_limits()
                 if rng.random() < 0.3:
                     H.seed_debris()
-                H.run(nedits=rng.randrange(0, 2))
+                kw = None
+                if rng.random() < 0.2:
+                    # a run that fails hard before publishing (I/O error while writing / syncing / renaming) must delete nothing
+                    sc, k, err = rng.choice([("write", 8, "ENOSPC"), ("write", 12, "EIO"), ("fsync", 1, "EIO"), ("fsync", 2, "EIO"), ("rename", 1, "EACCES"), ("mkdir", 2, "ENOSPC")])
+                    kw = {"prefix": trace.strace_cmd(sb.path("inj.txt"), trace.STORAGE_CALLS, inject=["%s:error=%s:when=%d" % (sc, err, k)])}
+                    ctx.count("run.with-injected-failure")
+                H.run(nedits=rng.randrange(0, 2), backup_kwargs=kw)
                 if len(ctx.violations) >= 3:
                     break
             H.report_diffs("rotation-retention")
             if len(ctx.samples) < 3:
                 ctx.sample({"history": H.log[:6]})
+        if ctx.violations:
+            break
+    # targeted: the storage is full (max_backup_groups groups, newest one full), the next day's run opens a new group and then
+    # fails hard before publishing: nothing may be deleted
+    for (mg, mp) in ([(1, 1), (2, 1), (1, 2), (3, 2)] if not ctx.violations else []):
+        with slevel.Sandbox("c07t") as sb:
+            H = runs.History(ctx, sb, rng, "C07", mg, mp)
+            H.w.populate(nfiles=3)
+            H.advance = lambda: None            # the clock of this scenario is set explicitly
+            day = 0
+            for g in range(mg):
+                for b in range(mp):
+                    H.now = runs.BASE + day * 86400 + 3600 + b * 60
+                    H.run(nedits=1)
+                day += 1
+            for k, inj in enumerate(("fsync:error=EIO:when=1", "rename:error=ENOSPC:when=1")):
+                ctx.count("targeted.full-storage-failing-run")
+                H.now = runs.BASE + (day + k) * 86400 + 7200
+                H.run(nedits=1, backup_kwargs={"prefix": trace.strace_cmd(sb.path("inj.txt"), trace.STORAGE_CALLS, inject=[inj])})
+            H.report_diffs("rotation-retention")
         if ctx.violations:
             break
     ctx.traces = ctx.evaluations
